@@ -20,6 +20,9 @@ CLAIMS = {
  "C10": ("Bounded model checking of every measurement <-> variation conversion pair found in app/gen/conversion.rs (69 pairs): measurement (all value bit patterns, flags, time) -> variation -> wire bytes -> variation -> measurement, with capability table from the standard: saturation + OVER_RANGE, low 16 bits for counters, state bits in flags, time carried exactly, nothing wrapped or sign-flipped.",
          "Static/event writers' header logic (promote, CTO grouping) and the master's extraction loop are not composed into these queries.",
          "DESIGN.md §5 C10"),
+ "C11": ("Bounded model checking of the static-data half of a READ on the real StaticDatabase and RangeWriter: for a database of counters at indices 3,4,9 (all values symbolic), any requested range, any room in the first fragment and updates applied after the selection: the fragments together report every selected point exactly once, ascending, contiguous runs sharing a header, with the values at selection time; resumption is exact; packed binary variation chosen from the selected (not the current) flags.",
+         "Partial: three points, counter and binary types only; the FIR/FIN/CON series logic and the confirm gate between fragments are async and outside the claim.",
+         "DESIGN.md §5 C11"),
  "C12": ("Bounded model checking of the synchronous response builders on a real OutstationSession: sequence = request's, UNS clear, FIR/FIN, objects exactly as specified and bounded, every object parse error maps to a non-empty IIN2, per-header rejections OR-ed (ENABLE/DISABLE_UNSOLICITED), restart-bit write semantics.",
          "The async dispatcher (which functions get no reply, WRITE's per-header loop, controls, wait states) is outside the claim; multi-header ENABLE/DISABLE cases only in the thorough tier (slow).",
          "DESIGN.md §5 C12"),
@@ -59,7 +62,6 @@ CLAIMS = {
 }
 NA = {
  "C02": "needs two tokio tasks, user threads, real sockets and reconnect timing; Kani/CBMC has no concurrency or I/O model, and cutting those away leaves nothing of the property",
- "C11": "claimed in DESIGN.md as partial (static selection/write on a BTreeMap-backed database); the harness family is not built in this revision, so the property is not claimed",
  "C14": "every clause is temporal over tokio::select!/timer code (async confirm-wait loops) that bounded symbolic execution could not execute (DESIGN.md §2.9)",
 }
 PENDING = "check not built yet in this revision of /verif (see DESIGN.md for the plan); not claimed until a registered harness family exists"
